@@ -610,6 +610,10 @@ def fs_oracle(obs, x):
                 if late:
                     out.append(V(f'{x.label}: cancelled, but data kept being transferred after the cancel call returned '
                                  f'and the complete object was published', **mech, sym='publish-after-cancel'))
+            elif cur == x.data and any(r['key'].startswith(x.label + '/fs:rename') and r['phase'] == 'after' for r in obs.world.director.raised):
+                # the harness made the publishing rename "fail" AFTER it had taken effect: the complete object stands under the name
+                # and the failure is reported - both as they must be
+                pass
             else:
                 out.append(V(f'{x.label}: failed ({type(x.exc).__name__}) but destination content changed '
                              f'(now {None if cur is None else len(cur)} bytes, previous '
